@@ -1,1 +1,138 @@
-From AGH Require Import Model.Stats.
+(** C09: statistics totals equal the queries counted inside the retention
+    window.  Only statements here; proofs live in Proofs/Stats.v.
+
+    Reading guide.  [run (init id ms en) h] is the model's state after New on
+    a fresh file (clock [id], limit [ms] milliseconds, enabled [en]) followed
+    by the history [h] of updates, flushes, restarts, clears and limit
+    changes.  [grun (ginit ..) h] runs the same history keeping the ghost
+    record beside the state: [g_ev g i k] = number of accepted updates counted
+    while hour [i] was current, since the last clear, for counter [k] (the
+    total or one of the five result categories); [g_low g] = the largest
+    [id - limit] at any flush/restart since the last clear (hours [<= g_low]
+    have been outside the window at a flush or restart); [g_raised g] = the
+    limit was raised since the last clear.  [rep k s] is what the API reports
+    for counter [k] (num_dns_queries, num_blocked_filtering, ...); [wsum s f]
+    sums [f] over the hours (cur - limit, cur].  [wf_hist]: the hour clock
+    never goes back and fits uint32; [init_ok]: first hour >= 8762 (so that
+    hour - limit - 1 does not wrap; real hours are about 5e5) and a valid
+    limit (1 hour .. 365 days). *)
+From Coq Require Import ZArith List Bool.
+From AGH Require Import Model.Stats Proofs.Stats.
+Import ListNotations.
+Local Open Scope Z_scope.
+
+(** (a) never more than the accepted, un-cleared updates whose hour lies in the
+    current window; (b) at least those of hours that have been inside the
+    window at every flush and restart since; equal outright while the limit has
+    not been raised. *)
+Theorem C09_conservation : forall id ms en h k,
+  init_ok id ms -> wf_hist id h ->
+  let g := grun (ginit id ms en) h in
+  let s := run (init id ms en) h in
+  rep k s <= wsum s (fun i => g_ev g i k) /\
+  wsum s (fun i => if i <=? g_low g then 0 else g_ev g i k) <= rep k s /\
+  (g_raised g = false -> rep k s = wsum s (fun i => g_ev g i k)).
+Proof. exact conservation. Qed.
+Print Assumptions C09_conservation.
+
+(** [rep] is what get_data returns. *)
+Theorem C09_rep_is_api : forall s,
+  d_num (get_data s) = rep CTotal s /\ num_nf s = rep (CCat NF) s /\
+  d_num_f (get_data s) = rep (CCat F) s /\ d_num_sb (get_data s) = rep (CCat SB) s /\
+  d_num_ss (get_data s) = rep (CCat SS) s /\ d_num_p (get_data s) = rep (CCat P) s.
+Proof. exact rep_get_data. Qed.
+Print Assumptions C09_rep_is_api.
+
+(** The refinement invariant of Appendix D holds in every reachable state:
+    the current unit holds the events of its hour, every stored unit below it
+    holds the events of its hour, a missing unit means no events or an hour
+    that was outside the window at a flush/restart ([i_db]); nothing is stored
+    or counted above the current hour. *)
+Theorem C09_invariant : forall id ms en h,
+  init_ok id ms -> wf_hist id h -> Inv (grun (ginit id ms en) h).
+Proof. exact reachable_inv. Qed.
+Print Assumptions C09_invariant.
+
+(** Per hour of the window: reported = counted, or nothing for a lost hour. *)
+Theorem C09_per_hour : forall g i k,
+  Inv g -> i <= cur_id (g_st g) ->
+  (if i <=? g_low g then 0 else g_ev g i k) <= proj k (unit_of (g_st g) i) <= g_ev g i k.
+Proof. exact hour_bounds. Qed.
+Print Assumptions C09_per_hour.
+
+(** Each accepted update increments the total and exactly one category. *)
+Theorem C09_one_category : forall s e,
+  accepts s e = true -> 0 <= e_res e ->
+  exists c,
+    u_total (cur (update s e)) = u_total (cur s) + 1 /\
+    u_cat c (cur (update s e)) = u_cat c (cur s) + 1 /\
+    (forall c', c' <> c -> u_cat c' (cur (update s e)) = u_cat c' (cur s)) /\
+    cur_id (update s e) = cur_id s /\ db (update s e) = db s.
+Proof. exact update_one_category. Qed.
+Print Assumptions C09_one_category.
+
+(** ... hence the reported total is the sum of the five category totals. *)
+Theorem C09_one_category_reported : forall id ms en h,
+  init_ok id ms -> wf_hist id h ->
+  let s := run (init id ms en) h in
+  d_num (get_data s) =
+    num_nf s + d_num_f (get_data s) + d_num_sb (get_data s) + d_num_ss (get_data s) + d_num_p (get_data s).
+Proof. exact one_category_reported. Qed.
+Print Assumptions C09_one_category_reported.
+
+(** Hourly series sum to the totals (any state) and have one point per hour. *)
+Theorem C09_hourly_sums : forall s,
+  d_days (get_data s) = false ->
+  zsum (d_dns (get_data s)) = d_num (get_data s) /\
+  zsum (d_blocked (get_data s)) = d_num_f (get_data s) /\
+  zsum (d_sb (get_data s)) = d_num_sb (get_data s) /\
+  zsum (d_par (get_data s)) = d_num_p (get_data s).
+Proof. exact hourly_sums. Qed.
+Print Assumptions C09_hourly_sums.
+
+Theorem C09_hourly_length : forall s,
+  d_days (get_data s) = false -> 1 <= lim s ->
+  Z.of_nat (length (d_dns (get_data s))) = lim s.
+Proof. exact hourly_length. Qed.
+Print Assumptions C09_hourly_length.
+
+(** Daily (and hourly) series never exceed the totals. *)
+Theorem C09_daily_le_total : forall id ms en h,
+  init_ok id ms -> wf_hist id h ->
+  let d := get_data (run (init id ms en) h) in
+  zsum (d_dns d) <= d_num d /\ zsum (d_blocked d) <= d_num_f d /\
+  zsum (d_sb d) <= d_num_sb d /\ zsum (d_par d) <= d_num_p d.
+Proof. exact daily_le_total. Qed.
+Print Assumptions C09_daily_le_total.
+
+(** Close; New preserves the invariant with the same events; in the same hour
+    every answer is unchanged. *)
+Theorem C09_restart : forall g id,
+  Inv g -> g_clock g <= id < max_id ->
+  Inv (gstep g (ORestart id)) /\
+  g_ev (gstep g (ORestart id)) = g_ev g /\
+  (id = cur_id (g_st g) ->
+   get_data (restart (g_st g) id) = get_data (g_st g) /\
+   num_nf (restart (g_st g) id) = num_nf (g_st g)).
+Proof. exact restart_preserves. Qed.
+Print Assumptions C09_restart.
+
+(** Premises satisfiable, bounds attained non-trivially: 15 updates in the
+    window, 10 reported after lowering and re-raising the limit. *)
+Theorem C09_conservation_example :
+  init_ok 490000 (48 * ms_hour) /\ wf_hist 490000 ex_hist /\
+  let g := grun (ginit 490000 (48 * ms_hour) true) ex_hist in
+  let s := g_st g in
+  rep CTotal s = 10 /\ wsum s (fun i => g_ev g i CTotal) = 15 /\
+  wsum s (fun i => if i <=? g_low g then 0 else g_ev g i CTotal) = 0 /\ g_raised g = true.
+Proof. exact conservation_premises. Qed.
+Print Assumptions C09_conservation_example.
+
+Theorem C09_exact_example :
+  wf_hist 490000 ex_hist2 /\
+  let g := grun (ginit 490000 (2 * ms_hour) true) ex_hist2 in
+  let s := g_st g in
+  g_raised g = false /\ rep CTotal s = 7 /\ wsum s (fun i => g_ev g i CTotal) = 7 /\
+  rep (CCat F) s = 2 /\ zsum (d_dns (get_data s)) = 7 /\ d_days (get_data s) = false.
+Proof. exact conservation_exact_premises. Qed.
+Print Assumptions C09_exact_example.
